@@ -87,7 +87,7 @@ def main():
         except Exception:
             pass
     # 'fixed' entries: hand-kept ones plus props/Cxx.fixed.json fragments written after a fix: commit
-    fixed = {json.dumps(e, sort_keys=True): e for e in kf["fixed"]}
+    fixed = {}  # derived from the fragments only, so a corrected fragment replaces its old entry
     for p in sorted(glob.glob(os.path.join(ROOT, "props", "C*.fixed.json"))):
         try:
             for ent in json.load(open(p)):
